@@ -476,7 +476,8 @@ def independence_case(ctx, rng, idx):
             seed_arg = [seed, np.int64(seed), np.random.default_rng(seed)][
                 idx // 7 % 3]
             feats['seed_type'] = type(seed_arg).__name__
-            arr = pm.sample(x, TIMES, n_samples=n, seed=seed_arg,
+            t_rep = np.concatenate([TIMES, TIMES[-1:]])
+            arr = pm.sample(x, t_rep, n_samples=n, seed=seed_arg,
                             return_df=False)
             if kind == 'predictive_outputs':
                 pairs = [(arr[0, j], arr[1, j], 'outputs 1,2 at time %d' % j)
@@ -484,14 +485,20 @@ def independence_case(ctx, rng, idx):
             else:
                 pairs = [(arr[o, 0], arr[o, 2], 'times 1,3 of output %d' % o)
                          for o in range(arr.shape[0])]
+                pairs.append((arr[0, -1], arr[0, -2],
+                              'replicates of the last time point'))
         elif kind == 'population_outputs':
             pm, x = _pm(rng, n_out=2)
             pop = chi.PooledModel(n_dim=pm.n_parameters())
             ppm = chi.PopulationPredictiveModel(pm, pop)
-            arr = ppm.sample(x, TIMES, n_samples=min(n, 3000), seed=seed,
+            # (the first time point is measured twice: replicates)
+            t_rep = np.concatenate([TIMES[:1], TIMES])
+            arr = ppm.sample(x, t_rep, n_samples=min(n, 3000), seed=seed,
                              return_df=False)
             pairs = [(arr[0, 0], arr[1, 0], 'outputs across patients'),
-                     (arr[0, 0], arr[0, 1], 'times across patients')]
+                     (arr[0, 0], arr[0, 2], 'times across patients'),
+                     (arr[0, 0], arr[0, 1],
+                      'replicates of one time point across patients')]
             # consecutive patients must not repeat the same noise
             if np.array_equal(arr[:, :, 0], arr[:, :, 1]):
                 ctx.violation('streams_are_independent',
